@@ -77,7 +77,22 @@ impl BitVector {
         let fill = if value { u64::MAX } else { 0 };
         let data = vec![fill; num_words];
 
-        Self { data, len }
+        let mut result = Self { data, len };
+        result.clear_padding();
+        result
+    }
+
+    /// Clears the unused bits of the last word.
+    ///
+    /// Every bit at position `len` or beyond is kept at 0, so that `push`
+    /// can rely on it and equal bit sequences compare equal.
+    fn clear_padding(&mut self) {
+        let used_bits = self.len % 64;
+        if used_bits > 0
+            && let Some(last) = self.data.last_mut()
+        {
+            *last &= (1u64 << used_bits) - 1;
+        }
     }
 
     /// Creates a bit vector with all bits set to false (0).
@@ -241,7 +256,9 @@ impl BitVector {
             .map(|(&a, &b)| a & b)
             .collect();
 
-        Self { data, len }
+        let mut result = Self { data, len };
+        result.clear_padding();
+        result
     }
 
     /// Performs bitwise OR with another bit vector.
@@ -260,17 +277,21 @@ impl BitVector {
             .map(|(&a, &b)| a | b)
             .collect();
 
-        Self { data, len }
+        let mut result = Self { data, len };
+        result.clear_padding();
+        result
     }
 
     /// Performs bitwise NOT.
     #[must_use]
     pub fn not(&self) -> Self {
         let data: Vec<u64> = self.data.iter().map(|&w| !w).collect();
-        Self {
+        let mut result = Self {
             data,
             len: self.len,
-        }
+        };
+        result.clear_padding();
+        result
     }
 
     /// Performs bitwise XOR with another bit vector.
@@ -287,7 +308,9 @@ impl BitVector {
             .map(|(&a, &b)| a ^ b)
             .collect();
 
-        Self { data, len }
+        let mut result = Self { data, len };
+        result.clear_padding();
+        result
     }
 
     /// Serializes to bytes.
@@ -326,7 +349,9 @@ impl BitVector {
             data.push(word);
         }
 
-        Ok(Self { data, len })
+        let mut result = Self { data, len };
+        result.clear_padding();
+        Ok(result)
     }
 }
 
@@ -349,6 +374,45 @@ impl FromIterator<bool> for BitVector {
 #[cfg(test)]
 mod tests {
     use super::*;
+
+    #[test]
+    fn test_push_after_ones_and_not() {
+        let mut ones = BitVector::ones(1);
+        ones.push(false);
+        assert_eq!(ones.to_bools(), vec![true, false]);
+
+        let mut flipped = BitVector::from_bools(&[true]).not();
+        flipped.push(false);
+        assert_eq!(flipped.to_bools(), vec![false, false]);
+
+        let mut long = BitVector::ones(65);
+        long.push(false);
+        long.push(true);
+        assert_eq!(long.get(65), Some(false));
+        assert_eq!(long.get(66), Some(true));
+        assert_eq!(long.count_ones(), 66);
+    }
+
+    #[test]
+    fn test_or_with_longer_vector_keeps_padding_clear() {
+        let short = BitVector::zeros(3);
+        let long = BitVector::ones(10);
+        let mut joined = short.or(&long);
+        assert_eq!(joined.to_bools(), vec![true, true, true]);
+        joined.push(false);
+        assert_eq!(joined.to_bools(), vec![true, true, true, false]);
+        assert_eq!(short.xor(&long), BitVector::ones(3));
+    }
+
+    #[test]
+    fn test_equal_bits_compare_equal() {
+        assert_eq!(BitVector::ones(1), BitVector::from_bools(&[true]));
+        assert_eq!(BitVector::ones(64), BitVector::from_bools(&[true; 64]));
+        assert_eq!(
+            BitVector::from_bools(&[true, false, true]).not(),
+            BitVector::from_bools(&[false, true, false])
+        );
+    }
 
     #[test]
     fn test_bitvec_basic() {
